@@ -5,6 +5,8 @@ The correspondence between the Rust-side types and the git-side types is given b
 functions below (they are the reading of one vocabulary in terms of the other and appear in the
 statements of Props/C43).
 -/
+set_option linter.unusedSimpArgs false
+deriving instance DecidableEq for Except
 namespace GixModel.C43
 open GixModel GixModel.C43Scan
 open GixModel.Spec.C43 (TextStat CrlfAction Eol GitConfig countByte gatherLoop gatherStats convertIsBinary
@@ -101,5 +103,888 @@ theorem tableOk_classify {t : StatsTable} (hok : tableOk t = true) (b : UInt8) :
   · have h2 := eq_of_beq h.2
     rw [h2]
     by_cases h26 : b.toNat = 26 <;> simp [h26]
+
+
+def decNp (st : TextStat) : TextStat := { st with nonprintable := st.nonprintable - 1 }
+
+theorem gitIncr_26 : gitIncr 26 = (0, 1, 0) := by decide
+
+theorem toNat_beq13 (b : UInt8) : (b.toNat == 13) = (b == 13) := toNat_beq b 13 (by omega)
+theorem toNat_beq10 (b : UInt8) : (b.toNat == 10) = (b == 10) := toNat_beq b 10 (by omega)
+
+section
+variable {t : StatsTable} (hok : tableOk t = true)
+include hok
+
+theorem statsGo_cr_lf (r : Bytes) (s : Stats) :
+    statsGo t (13 :: 10 :: r) s = statsGo t r { s with crlf := s.crlf + 1 } := by
+  simp [statsGo, tableOk_cr hok, tableOk_lf hok]
+
+theorem statsGo_cr_other (c : UInt8) (r : Bytes) (s : Stats) (h : c ≠ 10) :
+    statsGo t (13 :: c :: r) s = statsGo t (c :: r) { s with loneCr := s.loneCr + 1 } := by
+  simp [statsGo, tableOk_cr hok, tableOk_lf hok, toNat_beq10, h]
+
+theorem statsGo_cr_nil (s : Stats) : statsGo t [13] s = { s with loneCr := s.loneCr + 1 } := by
+  simp [statsGo, tableOk_cr hok]
+
+theorem statsGo_lf (r : Bytes) (s : Stats) :
+    statsGo t (10 :: r) s = statsGo t r { s with loneLf := s.loneLf + 1 } := by
+  cases r <;> simp [statsGo, tableOk_cr hok, tableOk_lf hok]
+
+theorem statsGo_other (b : UInt8) (r : Bytes) (s : Stats) (h13 : b ≠ 13) (h10 : b ≠ 10) :
+    statsGo t (b :: r) s = statsGo t r (s.bump (t.classify b.toNat r.isEmpty)) := by
+  cases r <;> simp [statsGo, tableOk_cr hok, tableOk_lf hok, toNat_beq10, toNat_beq13, h13, h10]
+end
+
+theorem gatherLoop_cr_lf (r : Bytes) (st : TextStat) :
+    gatherLoop (13 :: 10 :: r) st = gatherLoop r { st with crlf := st.crlf + 1 } := by
+  simp [gatherLoop]
+
+theorem gatherLoop_cr_other (c : UInt8) (r : Bytes) (st : TextStat) (h : c ≠ 10) :
+    gatherLoop (13 :: c :: r) st = gatherLoop (c :: r) { st with lonecr := st.lonecr + 1 } := by
+  simp [gatherLoop, h]
+
+theorem gatherLoop_cr_nil (st : TextStat) : gatherLoop [13] st = { st with lonecr := st.lonecr + 1 } := by
+  simp [gatherLoop]
+
+theorem gatherLoop_lf (r : Bytes) (st : TextStat) :
+    gatherLoop (10 :: r) st = gatherLoop r { st with lonelf := st.lonelf + 1 } := by
+  cases r <;> simp [gatherLoop]
+
+theorem gatherLoop_other (b : UInt8) (r : Bytes) (st : TextStat) (h13 : b ≠ 13) (h10 : b ≠ 10) :
+    gatherLoop (b :: r) st = gatherLoop r (countByte b st) := by
+  cases r <;> simp [gatherLoop, h13, h10]
+
+theorem statsGo_toGit_aux {t : StatsTable} (hok : tableOk t = true) : ∀ (n : Nat) (bs : Bytes) (s : Stats),
+    bs.length ≤ n →
+    (statsGo t bs s).toGit =
+      if bs.getLast? = some 26 then decNp (gatherLoop bs s.toGit) else gatherLoop bs s.toGit := by
+  intro n
+  induction n with
+  | zero =>
+    intro bs s h
+    have : bs = [] := List.eq_nil_of_length_eq_zero (by omega)
+    subst this
+    simp [statsGo, gatherLoop]
+  | succ n ih =>
+    intro bs s h
+    match bs, h with
+    | [], _ => simp [statsGo, gatherLoop]
+    | b :: rest, h =>
+      have hlen : rest.length ≤ n := by simp at h; omega
+      by_cases h13 : b = 13
+      · subst h13
+        match rest, hlen with
+        | [], _ =>
+          rw [statsGo_cr_nil hok, gatherLoop_cr_nil]; simp [Stats.toGit]
+        | c :: rest', hlen =>
+          by_cases h10 : c = 10
+          · subst h10
+            have hl2 : rest'.length ≤ n := by simp at hlen; omega
+            rw [statsGo_cr_lf hok, gatherLoop_cr_lf, ih rest' _ hl2]
+            match rest' with
+            | [] => simp [gatherLoop, Stats.toGit]
+            | d :: r2 => simp [List.getLast?_cons_cons, Stats.toGit]
+          · rw [statsGo_cr_other hok _ _ _ h10, gatherLoop_cr_other _ _ _ h10, ih (c :: rest') _ hlen]
+            simp [List.getLast?_cons_cons, Stats.toGit]
+      · by_cases h10 : b = 10
+        · subst h10
+          rw [statsGo_lf hok, gatherLoop_lf, ih rest _ hlen]
+          match rest with
+          | [] => simp [gatherLoop, Stats.toGit]
+          | d :: r2 => simp [List.getLast?_cons_cons, Stats.toGit]
+        · have hcl := tableOk_classify hok b
+          rw [statsGo_other hok _ _ _ h13 h10, gatherLoop_other _ _ _ h13 h10, ih rest _ hlen, bump_toGit,
+            countByte_eq]
+          match rest with
+          | [] =>
+            simp only [List.isEmpty_nil, hcl.2, gatherLoop, List.getLast?_nil, List.getLast?_singleton,
+              Option.some.injEq, reduceCtorEq, if_false]
+            by_cases h26 : b = 26
+            · subst h26
+              simp [gitIncr_26, addIncr, decNp]
+            · have : b.toNat ≠ 26 := by
+                intro hh; apply h26; apply UInt8.toNat_inj.mp; simpa using hh
+              simp [h26, this]
+          | d :: r2 =>
+            simp [List.getLast?_cons_cons, hcl.1]
+
+
+
+theorem fromBytesWith_toGit {t : StatsTable} (hok : tableOk t = true) (bs : Bytes) :
+    (Stats.fromBytesWith t bs).toGit = gatherStats bs := by
+  have := statsGo_toGit_aux hok bs.length bs {} (Nat.le_refl _)
+  simp only [Stats.fromBytesWith, this, gatherStats]
+  have h0 : ({} : Stats).toGit = {} := rfl
+  rw [h0]
+  by_cases h : bs.getLast? = some 26 <;> simp [h, decNp]
+
+theorem isBinary_toGit (s : Stats) : s.isBinary = convertIsBinary s.toGit := by
+  simp only [Stats.isBinary, convertIsBinary, Stats.toGit]
+  by_cases h1 : s.loneCr = 0 <;> by_cases h2 : s.null = 0 <;> simp [h1, h2, Nat.pos_iff_ne_zero]
+  by_cases h3 : s.printable / 128 < s.nonPrintable <;> simp [h3]
+
+theorem toEol_toGit (c : Config) : (c.toEol == .crlf) = textEolIsCrlf c.toGit := by
+  obtain ⟨a, e, n⟩ := c
+  cases a <;> cases e <;> cases n <;> simp [Config.toEol, textEolIsCrlf, Config.toGit, AutoCrlf.toGit, optModeToGit, Mode.toGitEol]
+  all_goals (rename_i m; cases m <;> simp)
+
+def optEolToGit : Option Mode → Eol
+  | none => .unset
+  | some m => m.toGitEol
+
+theorem digest_toEol_toGit (d : Digest) (c : Config) :
+    optEolToGit (d.toEol c) = outputEol c.toGit d.toAction := by
+  have h := toEol_toGit c
+  cases d <;> simp [Digest.toEol, Digest.toAction, outputEol, optEolToGit, Mode.toGitEol]
+  all_goals (
+    rw [← h]
+    cases c.toEol <;> simp [Mode.toGitEol])
+
+
+
+theorem isAuto_toGit (d : Digest) : d.isAutoText = d.toAction.isAuto := by
+  cases d <;> rfl
+
+theorem toEol_crlf_iff (d : Digest) (c : Config) :
+    (d.toEol c != some .crlf) = (outputEol c.toGit d.toAction != .crlf) := by
+  rw [← digest_toEol_toGit]
+  cases h : d.toEol c with
+  | none => simp only [optEolToGit]; decide
+  | some m => cases m <;> simp only [optEolToGit, Mode.toGitEol] <;> decide
+
+theorem willConvert_toGit (s : Stats) (d : Digest) (c : Config) :
+    s.willConvertLfToCrlf d c = Spec.C43.willConvertLfToCrlf c.toGit s.toGit d.toAction := by
+  simp only [Stats.willConvertLfToCrlf, Spec.C43.willConvertLfToCrlf, toEol_crlf_iff, isAuto_toGit,
+    isBinary_toGit]
+  simp only [Stats.toGit]
+  by_cases h1 : (outputEol c.toGit d.toAction != Eol.crlf) = true
+  · simp [h1]
+  · simp only [h1]
+    by_cases h2 : s.loneLf = 0
+    · simp [h2]
+    · by_cases h3 : d.toAction.isAuto = true
+      · by_cases h4 : s.loneCr = 0 <;> by_cases h5 : s.crlf = 0 <;> simp [h2, h3, h4, h5, convertIsBinary, Nat.pos_iff_ne_zero]
+      · simp [h2, h3]
+
+
+
+def AttrState.toGit : AttrState → Spec.C43.AttrValue
+  | .unspecified => .unset
+  | .set => .true_
+  | .unset => .false_
+  | .value v => .str v
+
+def Attrs.toGit (a : Attrs) : Spec.C43.GitAttrs :=
+  { crlf := a.crlf.toGit, ident := a.ident.toGit, eol := a.eol.toGit, text := a.text.toGit }
+
+def optDigestToAction : Option Digest → CrlfAction
+  | none => .undefined
+  | some d => d.toAction
+
+theorem extractCrlf_toGit (s : AttrState) :
+    optDigestToAction (extractCrlf s) = Spec.C43.gitPathCheckCrlf s.toGit := by
+  cases s with
+  | value v =>
+    simp only [extractCrlf, AttrState.toGit, Spec.C43.gitPathCheckCrlf, strInput, strAuto,
+      Spec.C43.strInput, Spec.C43.strAuto]
+    by_cases h1 : (v == [105, 110, 112, 117, 116]) = true
+    · simp [h1, optDigestToAction, Digest.toAction]
+    · by_cases h2 : (v == [97, 117, 116, 111]) = true <;> simp [h1, h2, optDigestToAction, Digest.toAction]
+  | _ => rfl
+
+theorem extractEol_toGit (s : AttrState) :
+    optEolToGit (extractEol s) = Spec.C43.gitPathCheckEol s.toGit := by
+  cases s with
+  | value v =>
+    simp only [extractEol, AttrState.toGit, Spec.C43.gitPathCheckEol, strLf, strCrlf,
+      Spec.C43.strLf, Spec.C43.strCrlf]
+    by_cases h1 : (v == [108, 102]) = true
+    · simp [h1, optEolToGit, Mode.toGitEol]
+    · by_cases h2 : (v == [99, 114, 108, 102]) = true <;> simp [h1, h2, optEolToGit, Mode.toGitEol]
+  | _ => rfl
+
+theorem ident_toGit (s : AttrState) : (s == .set) = Spec.C43.gitPathCheckIdent s.toGit := by
+  cases s <;> simp [AttrState.toGit, Spec.C43.gitPathCheckIdent] <;> rfl
+
+theorem d0_toGit (x y : Option Digest) :
+    optDigestToAction (x.or y) =
+      (if optDigestToAction x == .undefined then optDigestToAction y else optDigestToAction x) := by
+  cases x with
+  | none => simp [optDigestToAction]
+  | some d => cases d <;> simp [optDigestToAction, Digest.toAction]
+
+theorem digestOf_toGit (d0 : Option Digest) (e : Option Mode) (c : Config) :
+    (digestOf d0 e c).toAction = Spec.C43.crlfActionOf c.toGit (optDigestToAction d0) (optEolToGit e) := by
+  obtain ⟨au, ce, nat⟩ := c
+  rcases d0 with _ | d0 <;> rcases e with _ | e <;> cases au <;>
+    (try cases d0) <;> (try cases e) <;> rcases ce with _ | ce <;> (try cases ce) <;> cases nat <;> decide
+
+theorem atPath_toGit (a : Attrs) (c : Config) :
+    ((atPath a c).1.toAction, (atPath a c).2) = Spec.C43.convertAttrs c.toGit a.toGit := by
+  simp only [atPath, Spec.C43.convertAttrs, digestOf_toGit, d0_toGit, extractCrlf_toGit, extractEol_toGit,
+    ident_toGit, Attrs.toGit]
+  rfl
+
+
+
+theorem stripAllCr_eq (src : Bytes) : stripAllCr src = Spec.C43.stripAllCr src := by
+  induction src with
+  | nil => rfl
+  | cons b rest ih =>
+    by_cases h : b = 13 <;> simp [stripAllCr, Spec.C43.stripAllCr, List.filter_cons, h] <;>
+      simpa [stripAllCr] using ih
+
+theorem stripCrBeforeLf_eq (src : Bytes) : stripCrBeforeLf src = Spec.C43.stripCrBeforeLf src := by
+  induction src with
+  | nil => rfl
+  | cons b rest ih =>
+    cases rest with
+    | nil => simp [stripCrBeforeLf, Spec.C43.stripCrBeforeLf]
+    | cons c r2 =>
+      have e1 : stripCrBeforeLf (b :: c :: r2) =
+          if b == 13 && c == 10 then stripCrBeforeLf (c :: r2) else b :: stripCrBeforeLf (c :: r2) := by
+        simp [stripCrBeforeLf]
+      have e2 : Spec.C43.stripCrBeforeLf (b :: c :: r2) =
+          if b == 13 && c == 10 then Spec.C43.stripCrBeforeLf (c :: r2) else b :: Spec.C43.stripCrBeforeLf (c :: r2) := by
+        simp [Spec.C43.stripCrBeforeLf]
+      rw [e1, e2, ih]
+
+theorem countByte_lonecr (c : UInt8) (st : TextStat) : (countByte c st).lonecr = st.lonecr := by
+  rw [countByte_eq]; rfl
+
+theorem gatherLoop_lonecr_ge : ∀ (n : Nat) (bs : Bytes) (st : TextStat), bs.length ≤ n →
+    st.lonecr ≤ (gatherLoop bs st).lonecr := by
+  intro n
+  induction n with
+  | zero =>
+    intro bs st h
+    have : bs = [] := List.eq_nil_of_length_eq_zero (by omega)
+    subst this; simp [gatherLoop]
+  | succ n ih =>
+    intro bs st h
+    match bs, h with
+    | [], _ => simp [gatherLoop]
+    | b :: rest, h =>
+      have hlen : rest.length ≤ n := by simp at h; omega
+      by_cases h13 : b = 13
+      · subst h13
+        match rest, hlen with
+        | [], _ => rw [gatherLoop_cr_nil]; simp
+        | c :: r2, hlen =>
+          by_cases h10 : c = 10
+          · subst h10
+            rw [gatherLoop_cr_lf]
+            have := ih r2 { st with crlf := st.crlf + 1 } (by simp at hlen; omega)
+            simpa using this
+          · rw [gatherLoop_cr_other _ _ _ h10]
+            have := ih (c :: r2) { st with lonecr := st.lonecr + 1 } hlen
+            simp at this ⊢; omega
+      · by_cases h10 : b = 10
+        · subst h10; rw [gatherLoop_lf]
+          have := ih rest { st with lonelf := st.lonelf + 1 } hlen
+          simpa using this
+        · rw [gatherLoop_other _ _ _ h13 h10]
+          have := ih rest (countByte b st) hlen
+          rw [countByte_lonecr] at this; exact this
+
+theorem strip_eq_of_lonecr : ∀ (n : Nat) (bs : Bytes) (st : TextStat), bs.length ≤ n →
+    (gatherLoop bs st).lonecr = st.lonecr → Spec.C43.stripAllCr bs = Spec.C43.stripCrBeforeLf bs := by
+  intro n
+  induction n with
+  | zero =>
+    intro bs st h _
+    have : bs = [] := List.eq_nil_of_length_eq_zero (by omega)
+    subst this; rfl
+  | succ n ih =>
+    intro bs st h heq
+    match bs, h with
+    | [], _ => rfl
+    | b :: rest, h =>
+      have hlen : rest.length ≤ n := by simp at h; omega
+      by_cases h13 : b = 13
+      · subst h13
+        match rest, hlen with
+        | [], _ => rw [gatherLoop_cr_nil] at heq; simp at heq
+        | c :: r2, hlen =>
+          by_cases h10 : c = 10
+          · subst h10
+            rw [gatherLoop_cr_lf] at heq
+            have := ih r2 _ (by simp at hlen; omega) heq
+            simp [Spec.C43.stripAllCr, Spec.C43.stripCrBeforeLf, this]
+          · rw [gatherLoop_cr_other _ _ _ h10] at heq
+            have := gatherLoop_lonecr_ge (n + 1) (c :: r2) { st with lonecr := st.lonecr + 1 } (by simp at hlen ⊢; omega)
+            simp at this; omega
+      · have hstep : Spec.C43.stripAllCr (b :: rest) = b :: Spec.C43.stripAllCr rest := by
+          simp [Spec.C43.stripAllCr, h13]
+        have hstep2 : Spec.C43.stripCrBeforeLf (b :: rest) = b :: Spec.C43.stripCrBeforeLf rest := by
+          simp [Spec.C43.stripCrBeforeLf, h13]
+        rw [hstep, hstep2]
+        by_cases h10 : b = 10
+        · subst h10; rw [gatherLoop_lf] at heq; rw [ih rest _ hlen heq]
+        · rw [gatherLoop_other _ _ _ h13 h10] at heq
+          rw [ih rest (countByte b st) hlen (by rw [heq, countByte_lonecr])]
+
+theorem gatherStats_lonecr (bs : Bytes) : (gatherStats bs).lonecr = (gatherLoop bs {}).lonecr := by
+  simp only [gatherStats]; split <;> rfl
+
+theorem strip_eq_of_stats (bs : Bytes) (h : (gatherStats bs).lonecr = 0) :
+    Spec.C43.stripAllCr bs = Spec.C43.stripCrBeforeLf bs := by
+  rw [gatherStats_lonecr] at h
+  exact strip_eq_of_lonecr bs.length bs {} (Nat.le_refl _) (by simpa using h)
+
+
+
+def RtMsg.toGit : RtMsg → Spec.C43.EolMsg
+  | .crlfToLf => .crlfToLf
+  | .lfToCrlf => .lfToCrlf
+
+/-- `Option<RoundTripCheck>` ↔ `core.safecrlf` -/
+def safeOf : Option RoundTrip → Spec.C43.SafeCrlf
+  | none => .off
+  | some .warn => .warn
+  | some .fail => .die
+
+/-- what `eol::convert_to_git` means for the content: the (possibly unchanged) bytes + warning -/
+def EolToGit.toGit (src : Bytes) (r : EolToGit) : Spec.C43.ToGit :=
+  { out := r.out.getD src, warning := r.warned.map RtMsg.toGit }
+
+def exceptToGit (src : Bytes) : Except RtMsg EolToGit → Except Spec.C43.EolMsg Spec.C43.ToGit
+  | .ok r => .ok (r.toGit src)
+  | .error m => .error m.toGit
+
+theorem hasCrlfInIndex_toGit {t : StatsTable} (hok : tableOk t = true) (buf : Bytes) :
+    hasCrlfInIndex t buf = Spec.C43.hasCrlfInIndex (some buf) := by
+  simp only [hasCrlfInIndex, Spec.C43.hasCrlfInIndex]
+  by_cases h : buf.contains 13 = true
+  · have hne : buf.isEmpty = false := by
+      cases buf with
+      | nil => simp at h
+      | cons => rfl
+    rw [if_pos h, if_pos h]
+    simp only [hne, Bool.false_eq_true, if_false, isBinary_toGit, fromBytesWith_toGit hok]
+    have : (Stats.fromBytesWith t buf).crlf = (gatherStats buf).crlf := by
+      rw [← fromBytesWith_toGit hok]; rfl
+    rw [this]
+    by_cases h0 : (gatherStats buf).crlf = 0 <;> simp [h0, Nat.pos_iff_ne_zero]
+  · rw [if_neg h, if_neg h]
+
+theorem simulate_toGit (stats : Stats) (convert : Bool) (d : Digest) (c : Config) :
+    (simulateRoundTrip stats convert d c).toGit =
+      Spec.C43.simulateAddCheckout c.toGit stats.toGit convert d.toAction := by
+  cases convert
+  · simp only [simulateRoundTrip, Spec.C43.simulateAddCheckout, Bool.false_eq_true, if_false, willConvert_toGit]
+    split <;> rfl
+  · simp only [simulateRoundTrip, Spec.C43.simulateAddCheckout, if_true, willConvert_toGit]
+    have e : ({ stats with loneLf := stats.loneLf + stats.crlf, crlf := 0 } : Stats).toGit =
+        { stats.toGit with lonelf := stats.toGit.lonelf + stats.toGit.crlf, crlf := 0 } := rfl
+    rw [e]
+    split <;> rfl
+
+theorem check_toGit (stats new2 : Stats) :
+    (if stats.crlf > 0 && new2.crlf == 0 then some RtMsg.crlfToLf
+     else if stats.loneLf > 0 && new2.loneLf == 0 then some RtMsg.lfToCrlf else none).map RtMsg.toGit =
+      Spec.C43.checkGlobalConvFlagsEol stats.toGit new2.toGit := by
+  simp only [Spec.C43.checkGlobalConvFlagsEol, Stats.toGit]
+  by_cases h1 : stats.crlf = 0 <;> by_cases h2 : new2.crlf = 0 <;> by_cases h3 : stats.loneLf = 0 <;>
+    by_cases h4 : new2.loneLf = 0 <;> simp [h1, h2, h3, h4, RtMsg.toGit, Nat.pos_iff_ne_zero]
+
+theorem roundTripMsg_toGit (stats : Stats) (convert : Bool) (d : Digest) (c : Config) :
+    (roundTripMsg stats convert d c).map RtMsg.toGit =
+      Spec.C43.checkGlobalConvFlagsEol stats.toGit
+        (Spec.C43.simulateAddCheckout c.toGit stats.toGit convert d.toAction) := by
+  rw [← simulate_toGit, ← check_toGit]
+  rfl
+
+
+
+theorem binary_toGit (d : Digest) : (d == .binary) = (d.toAction == .binary) := by
+  cases d <;> rfl
+
+theorem notBinary_loneCr {s : Stats} (h : s.isBinary = false) : s.loneCr = 0 := by
+  simp only [Stats.isBinary, Bool.or_eq_false_iff, decide_eq_false_iff_not] at h
+  omega
+
+theorem convert_toGit {t : StatsTable} (hok : tableOk t = true) (stats : Stats) (d : Digest)
+    (index : Option Bytes) :
+    convertCrlfToLf t stats d index = Spec.C43.convertCrlfIntoLf stats.toGit d.toAction index := by
+  unfold convertCrlfToLf Spec.C43.convertCrlfIntoLf
+  have hc : decide (stats.crlf > 0) = (stats.toGit.crlf != 0) := by
+    show decide (stats.crlf > 0) = (stats.crlf != 0)
+    by_cases hz : stats.crlf = 0 <;> simp [hz, Nat.pos_iff_ne_zero]
+  rw [hc, isAuto_toGit]
+  cases index with
+  | none => simp [Spec.C43.hasCrlfInIndex]
+  | some buf =>
+    simp only [hasCrlfInIndex_toGit hok]
+    by_cases ha : d.toAction.isAuto = true <;> simp [ha]
+
+theorem tail_toGit (src : Bytes) (stats : Stats) (a : CrlfAction) (convert : Bool) (msg : Option RtMsg)
+    (rt : Option RoundTrip)
+    (hauto : a.isAuto = true → stats.loneCr = 0)
+    (hl : stats.loneCr = (gatherStats src).lonecr) :
+    exceptToGit src (eolToGitTail src stats convert msg rt) =
+      Spec.C43.crlfToGitTail src a convert (msg.map RtMsg.toGit) (safeOf rt) := by
+  have hstrip : (if a.isAuto = true then Spec.C43.stripAllCr src else Spec.C43.stripCrBeforeLf src) =
+      (if stats.loneCr = 0 then stripAllCr src else stripCrBeforeLf src) := by
+    by_cases ha : a.isAuto = true
+    · simp [ha, hauto ha, stripAllCr_eq]
+    · by_cases hz : stats.loneCr = 0
+      · simp [ha, hz, stripAllCr_eq, strip_eq_of_stats src (by rw [← hl]; exact hz)]
+      · simp [ha, hz, stripCrBeforeLf_eq]
+  unfold eolToGitTail Spec.C43.crlfToGitTail
+  have hbeq : (stats.loneCr == 0) = decide (stats.loneCr = 0) := by
+    by_cases hz : stats.loneCr = 0 <;> simp [hz]
+  rcases rt with _ | r
+  · cases msg <;> cases convert <;> simp [safeOf, exceptToGit, EolToGit.toGit, hstrip] <;>
+      (by_cases hz : stats.loneCr = 0 <;> by_cases ha : a.isAuto = true <;>
+        first
+        | exact absurd (hauto ha) hz
+        | (simp only [hz, ha, if_true, if_false, Bool.false_eq_true] at hstrip ⊢
+           simp [hz, exceptToGit, EolToGit.toGit, hstrip]))
+  · cases r <;> cases msg <;> cases convert <;> simp [safeOf, exceptToGit, EolToGit.toGit, hstrip] <;>
+      (by_cases hz : stats.loneCr = 0 <;> by_cases ha : a.isAuto = true <;>
+        first
+        | exact absurd (hauto ha) hz
+        | (simp only [hz, ha, if_true, if_false, Bool.false_eq_true] at hstrip ⊢
+           simp [hz, exceptToGit, EolToGit.toGit, hstrip]))
+
+theorem eolToGit_toGit {t : StatsTable} (hok : tableOk t = true) (src : Bytes) (d : Digest)
+    (index : Option Bytes) (rt : Option RoundTrip) (c : Config) :
+    exceptToGit src (eolToGitWith t src d index rt c) =
+      Spec.C43.crlfToGit c.toGit index src d.toAction (safeOf rt) := by
+  unfold eolToGitWith Spec.C43.crlfToGit
+  rw [binary_toGit]
+  by_cases h0 : (d.toAction == CrlfAction.binary || src.isEmpty) = true
+  · simp only [h0, if_true]; rfl
+  · simp only [h0, Bool.false_eq_true, if_false]
+    have hst : (Stats.fromBytesWith t src).toGit = gatherStats src := fromBytesWith_toGit hok src
+    have hlcr : (Stats.fromBytesWith t src).loneCr = (gatherStats src).lonecr := by rw [← hst]; rfl
+    rw [isAuto_toGit, isBinary_toGit, hst]
+    by_cases h1 : (d.toAction.isAuto && convertIsBinary (gatherStats src)) = true
+    · simp only [h1, if_true]; rfl
+    · simp only [h1, Bool.false_eq_true, if_false]
+      have hauto : d.toAction.isAuto = true → (Stats.fromBytesWith t src).loneCr = 0 := by
+        intro ha
+        simp only [ha, Bool.true_and, Bool.not_eq_true] at h1
+        exact notBinary_loneCr (by rw [isBinary_toGit, hst]; exact h1)
+      rw [tail_toGit src _ d.toAction _ _ rt hauto hlcr, convert_toGit hok, hst]
+      congr 1
+      cases rt with
+      | none => simp [safeOf]
+      | some r =>
+        have : (safeOf (some r) != Spec.C43.SafeCrlf.off) = true := by cases r <;> decide
+        simp only [this, if_true, roundTripMsg_toGit, hst]
+
+
+
+/-! ### scanning primitives -/
+
+theorem breakAt_some {p : UInt8 → Bool} : ∀ {bs pre : Bytes} {hit : UInt8} {post : Bytes},
+    breakAt p bs = some (pre, hit, post) →
+    bs = pre ++ hit :: post ∧ p hit = true ∧ ∀ x ∈ pre, p x = false := by
+  intro bs
+  induction bs with
+  | nil => intro pre hit post h; simp [breakAt] at h
+  | cons b rest ih =>
+    intro pre hit post h
+    unfold breakAt at h
+    by_cases hp : p b = true
+    · simp only [hp, if_true, Option.some.injEq, Prod.mk.injEq] at h
+      obtain ⟨rfl, rfl, rfl⟩ := h
+      simp [hp]
+    · simp only [hp, Bool.false_eq_true, if_false] at h
+      cases hr : breakAt p rest with
+      | none => simp [hr] at h
+      | some r =>
+        obtain ⟨pre', hit', post'⟩ := r
+        simp only [hr, Option.some.injEq, Prod.mk.injEq] at h
+        obtain ⟨rfl, rfl, rfl⟩ := h
+        obtain ⟨h1, h2, h3⟩ := ih hr
+        refine ⟨by rw [h1]; rfl, h2, ?_⟩
+        intro x hx
+        simp only [List.mem_cons] at hx
+        rcases hx with rfl | hx
+        · simpa using hp
+        · exact h3 x hx
+
+theorem breakAt_none {p : UInt8 → Bool} : ∀ {bs : Bytes}, breakAt p bs = none → ∀ x ∈ bs, p x = false := by
+  intro bs
+  induction bs with
+  | nil => intro _ x hx; simp at hx
+  | cons b rest ih =>
+    intro h x hx
+    unfold breakAt at h
+    by_cases hp : p b = true
+    · simp [hp] at h
+    · simp only [hp, Bool.false_eq_true, if_false] at h
+      cases hr : breakAt p rest with
+      | some r => simp [hr] at h
+      | none =>
+        simp only [List.mem_cons] at hx
+        rcases hx with rfl | hx
+        · simpa using hp
+        · exact ih hr x hx
+
+/-! ### LF → CRLF: one reference function, three programs -/
+
+/-- every LF that does not directly follow a CR gets a CR -/
+def lfToCrlf : Bytes → Bytes
+  | [] => []
+  | b :: rest =>
+    if b == 13 then
+      match rest with
+      | c :: rest' => if c == 10 then 13 :: 10 :: lfToCrlf rest' else 13 :: lfToCrlf (c :: rest')
+      | [] => [13]
+    else if b == 10 then 13 :: 10 :: lfToCrlf rest
+    else b :: lfToCrlf rest
+
+theorem lfToCrlf_cr_lf (r : Bytes) : lfToCrlf (13 :: 10 :: r) = 13 :: 10 :: lfToCrlf r := by
+  simp [lfToCrlf]
+
+theorem lfToCrlf_cr_other (r : Bytes) (h : r.head? ≠ some 10) : lfToCrlf (13 :: r) = 13 :: lfToCrlf r := by
+  cases r with
+  | nil => simp [lfToCrlf]
+  | cons c r2 =>
+    have : c ≠ 10 := by simpa using h
+    simp [lfToCrlf, this]
+
+theorem lfToCrlf_lf (r : Bytes) : lfToCrlf (10 :: r) = 13 :: 10 :: lfToCrlf r := by
+  cases r <;> simp [lfToCrlf]
+
+theorem lfToCrlf_other (b : UInt8) (r : Bytes) (h13 : b ≠ 13) (h10 : b ≠ 10) :
+    lfToCrlf (b :: r) = b :: lfToCrlf r := by
+  cases r <;> simp [lfToCrlf, h13, h10]
+
+theorem lfToCrlf_plain (pre rest : Bytes) (h : ∀ x ∈ pre, (x == 13 || x == 10) = false) :
+    lfToCrlf (pre ++ rest) = pre ++ lfToCrlf rest := by
+  induction pre with
+  | nil => rfl
+  | cons b pre ih =>
+    have hb := h b (by simp)
+    simp only [Bool.or_eq_false_iff, beq_eq_false_iff_ne, ne_eq] at hb
+    rw [List.cons_append, lfToCrlf_other _ _ hb.1 hb.2, ih (fun x hx => h x (by simp [hx]))]
+    rfl
+
+theorem eolToWorktreeLoop_eq : ∀ (fuel : Nat) (cur buf : Bytes), cur.length < fuel →
+    eolToWorktreeLoop fuel cur buf = buf ++ lfToCrlf cur := by
+  intro fuel
+  induction fuel with
+  | zero => intro cur buf h; omega
+  | succ fuel ih =>
+    intro cur buf h
+    unfold eolToWorktreeLoop
+    cases hb : breakAt (fun b => b == 13 || b == 10) cur with
+    | none =>
+      have := breakAt_none hb
+      have e := lfToCrlf_plain cur [] this
+      simp only [List.append_nil] at e
+      simp [e, lfToCrlf]
+    | some r =>
+      obtain ⟨pre, hit, post⟩ := r
+      obtain ⟨hcur, hhit, hpre⟩ := breakAt_some hb
+      have hlen : post.length < fuel := by
+        rw [hcur] at h; simp at h; omega
+      by_cases h13 : hit = 13
+      · subst h13
+        simp only [beq_self_eq_true, if_true]
+        by_cases hn : post.head? = some 10
+        · simp only [hn, if_true]
+          cases post with
+          | nil => simp at hn
+          | cons c p2 =>
+            have hc : c = 10 := by simpa using hn
+            subst hc
+            rw [ih _ _ (by simp at hlen ⊢; omega), hcur, lfToCrlf_plain _ _ hpre, lfToCrlf_cr_lf]
+            simp
+        · have hnb : (post.head? == some 10) = false := by simpa using hn
+          simp only [hnb, Bool.false_eq_true, if_false]
+          rw [ih _ _ hlen, hcur, lfToCrlf_plain _ _ hpre, lfToCrlf_cr_other _ hn]
+          simp
+      · have h10 : hit = 10 := by
+          simp only [Bool.or_eq_true, beq_iff_eq] at hhit
+          rcases hhit with h | h
+          · exact absurd h h13
+          · exact h
+        subst h10
+        simp only [show ((10 : UInt8) == 13) = false by decide, Bool.false_eq_true, if_false]
+        rw [ih _ _ hlen, hcur, lfToCrlf_plain _ _ hpre, lfToCrlf_lf]
+        simp
+
+theorem lfToCrlf_noLf (bs : Bytes) (h : ∀ x ∈ bs, (x == 10) = false) : lfToCrlf bs = bs := by
+  induction bs with
+  | nil => rfl
+  | cons b rest ih =>
+    have hb : b ≠ 10 := by simpa using h b (by simp)
+    have ih' := ih (fun x hx => h x (by simp [hx]))
+    by_cases h13 : b = 13
+    · subst h13
+      have hn : rest.head? ≠ some 10 := by
+        cases rest with
+        | nil => simp
+        | cons c r2 => have := h c (by simp); simpa using this
+      rw [lfToCrlf_cr_other _ hn, ih']
+    · rw [lfToCrlf_other _ _ h13 hb, ih']
+
+/-- git's look-behind formulation: `pre` is the chunk before the next LF -/
+theorem lfToCrlf_chunk (pre r : Bytes) (h : ∀ x ∈ pre, (x == 10) = false) :
+    lfToCrlf (pre ++ 10 :: r) =
+      if pre.getLast? = some 13 then pre ++ 10 :: lfToCrlf r else pre ++ 13 :: 10 :: lfToCrlf r := by
+  induction pre with
+  | nil => simp [lfToCrlf_lf]
+  | cons b pre ih =>
+    have hb : b ≠ 10 := by simpa using h b (by simp)
+    have ih' := ih (fun x hx => h x (by simp [hx]))
+    cases pre with
+    | nil =>
+      by_cases h13 : b = 13
+      · subst h13; simp [lfToCrlf_cr_lf]
+      · simp [lfToCrlf_other _ _ h13 hb, lfToCrlf_lf, h13]
+    | cons c p2 =>
+      have hc : c ≠ 10 := by simpa using h c (by simp)
+      rw [List.getLast?_cons_cons]
+      by_cases h13 : b = 13
+      · subst h13
+        have hn : ((c :: p2) ++ 10 :: r).head? ≠ some 10 := by simpa using hc
+        rw [List.cons_append, lfToCrlf_cr_other _ hn, ih']
+        split <;> simp
+      · rw [List.cons_append, lfToCrlf_other _ _ h13 hb, ih']
+        split <;> simp
+
+theorem crlfToWorktreeLoop_eq : ∀ (fuel : Nat) (src buf : Bytes), src.length < fuel →
+    Spec.C43.crlfToWorktreeLoop fuel src buf = buf ++ lfToCrlf src := by
+  intro fuel
+  induction fuel with
+  | zero => intro src buf h; omega
+  | succ fuel ih =>
+    intro src buf h
+    unfold Spec.C43.crlfToWorktreeLoop
+    cases hb : breakAt (fun b => b == 10) src with
+    | none => simp [lfToCrlf_noLf src (breakAt_none hb)]
+    | some r =>
+      obtain ⟨pre, hit, post⟩ := r
+      obtain ⟨hsrc, hhit, hpre⟩ := breakAt_some hb
+      have h10 : hit = 10 := by simpa using hhit
+      subst h10
+      have hlen : post.length < fuel := by rw [hsrc] at h; simp at h; omega
+      rw [hsrc, lfToCrlf_chunk pre post hpre]
+      by_cases hl : pre.getLast? = some 13
+      · simp only [hl, if_true]; rw [ih _ _ hlen]; simp
+      · have hlb : (pre.getLast? == some 13) = false := by simpa using hl
+        simp only [hl, hlb, Bool.false_eq_true, if_false]; rw [ih _ _ hlen]; simp
+
+theorem lfToCrlfStream_eq : ∀ (bs : Bytes),
+    Spec.C43.lfToCrlfStream bs false = lfToCrlf bs ∧ Spec.C43.lfToCrlfStream bs true = lfToCrlf (13 :: bs) := by
+  intro bs
+  induction bs with
+  | nil => simp [Spec.C43.lfToCrlfStream, lfToCrlf]
+  | cons ch rest ih =>
+    obtain ⟨ihf, iht⟩ := ih
+    by_cases h10 : ch = 10
+    · subst h10
+      simp [Spec.C43.lfToCrlfStream, ihf, lfToCrlf_lf, lfToCrlf_cr_lf]
+    · by_cases h13 : ch = 13
+      · subst h13
+        have hn : (13 :: rest : Bytes).head? ≠ some 10 := by simp
+        simp [Spec.C43.lfToCrlfStream, iht, lfToCrlf_cr_other _ hn]
+      · have hn : (ch :: rest : Bytes).head? ≠ some 10 := by simpa using h10
+        simp [Spec.C43.lfToCrlfStream, h10, h13, ihf, lfToCrlf_cr_other _ hn, lfToCrlf_other _ _ h13 h10]
+
+
+
+theorem countByte_lonelf (c : UInt8) (st : TextStat) : (countByte c st).lonelf = st.lonelf := by
+  rw [countByte_eq]; rfl
+
+theorem gatherLoop_lonelf_ge : ∀ (n : Nat) (bs : Bytes) (st : TextStat), bs.length ≤ n →
+    st.lonelf ≤ (gatherLoop bs st).lonelf := by
+  intro n
+  induction n with
+  | zero =>
+    intro bs st h
+    have : bs = [] := List.eq_nil_of_length_eq_zero (by omega)
+    subst this; simp [gatherLoop]
+  | succ n ih =>
+    intro bs st h
+    match bs, h with
+    | [], _ => simp [gatherLoop]
+    | b :: rest, h =>
+      have hlen : rest.length ≤ n := by simp at h; omega
+      by_cases h13 : b = 13
+      · subst h13
+        match rest, hlen with
+        | [], _ => rw [gatherLoop_cr_nil]; simp
+        | c :: r2, hlen =>
+          by_cases h10 : c = 10
+          · subst h10
+            rw [gatherLoop_cr_lf]
+            have := ih r2 { st with crlf := st.crlf + 1 } (by simp at hlen; omega)
+            simpa using this
+          · rw [gatherLoop_cr_other _ _ _ h10]
+            have := ih (c :: r2) { st with lonecr := st.lonecr + 1 } hlen
+            simpa using this
+      · by_cases h10 : b = 10
+        · subst h10; rw [gatherLoop_lf]
+          have := ih rest { st with lonelf := st.lonelf + 1 } hlen
+          simp at this ⊢; omega
+        · rw [gatherLoop_other _ _ _ h13 h10]
+          have := ih rest (countByte b st) hlen
+          rw [countByte_lonelf] at this; exact this
+
+theorem lfToCrlf_of_lonelf : ∀ (n : Nat) (bs : Bytes) (st : TextStat), bs.length ≤ n →
+    (gatherLoop bs st).lonelf = st.lonelf → lfToCrlf bs = bs := by
+  intro n
+  induction n with
+  | zero =>
+    intro bs st h _
+    have : bs = [] := List.eq_nil_of_length_eq_zero (by omega)
+    subst this; rfl
+  | succ n ih =>
+    intro bs st h heq
+    match bs, h with
+    | [], _ => rfl
+    | b :: rest, h =>
+      have hlen : rest.length ≤ n := by simp at h; omega
+      by_cases h13 : b = 13
+      · subst h13
+        match rest, hlen with
+        | [], _ => simp [lfToCrlf]
+        | c :: r2, hlen =>
+          by_cases h10 : c = 10
+          · subst h10
+            rw [gatherLoop_cr_lf] at heq
+            rw [lfToCrlf_cr_lf, ih r2 _ (by simp at hlen; omega) heq]
+          · rw [gatherLoop_cr_other _ _ _ h10] at heq
+            have hn : (c :: r2 : Bytes).head? ≠ some 10 := by simpa using h10
+            rw [lfToCrlf_cr_other _ hn, ih (c :: r2) _ hlen heq]
+      · by_cases h10 : b = 10
+        · subst h10
+          rw [gatherLoop_lf] at heq
+          have := gatherLoop_lonelf_ge n rest { st with lonelf := st.lonelf + 1 } hlen
+          simp at this; omega
+        · rw [gatherLoop_other _ _ _ h13 h10] at heq
+          rw [lfToCrlf_other _ _ h13 h10, ih rest (countByte b st) hlen (by rw [heq, countByte_lonelf])]
+
+theorem gatherStats_lonelf (bs : Bytes) : (gatherStats bs).lonelf = (gatherLoop bs {}).lonelf := by
+  simp only [gatherStats]; split <;> rfl
+
+theorem lfToCrlf_of_stats (bs : Bytes) (h : (gatherStats bs).lonelf = 0) : lfToCrlf bs = bs := by
+  rw [gatherStats_lonelf] at h
+  exact lfToCrlf_of_lonelf bs.length bs {} (Nat.le_refl _) (by simpa using h)
+
+/-- `crlf_to_worktree` says: all lone LFs get a CR, if `will_convert_lf_to_crlf` -/
+theorem crlfToWorktree_eq (cfg : GitConfig) (src : Bytes) (a : CrlfAction) :
+    Spec.C43.crlfToWorktree cfg src a =
+      if Spec.C43.willConvertLfToCrlf cfg (gatherStats src) a then lfToCrlf src else src := by
+  unfold Spec.C43.crlfToWorktree
+  by_cases h0 : (src.isEmpty || outputEol cfg a != Eol.crlf) = true
+  · simp only [h0, if_true]
+    simp only [Bool.or_eq_true] at h0
+    rcases h0 with h0 | h0
+    · have : src = [] := by simpa using h0
+      subst this; simp [lfToCrlf]
+    · simp [Spec.C43.willConvertLfToCrlf, h0]
+  · simp only [h0, Bool.false_eq_true, if_false]
+    by_cases hw : Spec.C43.willConvertLfToCrlf cfg (gatherStats src) a = true
+    · simp [hw, crlfToWorktreeLoop_eq]
+    · simp [hw]
+
+theorem eolToWorktree_toGit {t : StatsTable} (hok : tableOk t = true) (src : Bytes) (d : Digest) (c : Config) :
+    (eolToWorktreeWith t src d c).getD src = Spec.C43.crlfToWorktree c.toGit src d.toAction := by
+  rw [crlfToWorktree_eq]
+  unfold eolToWorktreeWith
+  simp only [toEol_crlf_iff, willConvert_toGit, fromBytesWith_toGit hok]
+  by_cases h0 : (src.isEmpty || outputEol c.toGit d.toAction != Eol.crlf) = true
+  · simp only [h0, if_true, Option.getD_none]
+    simp only [Bool.or_eq_true] at h0
+    rcases h0 with h0 | h0
+    · have : src = [] := by simpa using h0
+      subst this; simp [lfToCrlf]
+    · simp [Spec.C43.willConvertLfToCrlf, h0]
+  · simp only [h0, Bool.false_eq_true, if_false]
+    by_cases hw : Spec.C43.willConvertLfToCrlf c.toGit (gatherStats src) d.toAction = true
+    · simp [hw, eolToWorktreeLoop_eq]
+    · simp [hw]
+
+/-- for the actions checkout streams (everything but `auto`/`auto_crlf`), the streaming LF→CRLF
+filter and the in-memory `crlf_to_worktree` produce the same bytes -/
+theorem stream_eq_crlfToWorktree (cfg : GitConfig) (src : Bytes) (a : CrlfAction)
+    (h : Spec.C43.noStreamFilter a = false) :
+    (if outputEol cfg a == Eol.crlf then Spec.C43.lfToCrlfStream src false else src) =
+      Spec.C43.crlfToWorktree cfg src a := by
+  rw [crlfToWorktree_eq, (lfToCrlfStream_eq src).1]
+  by_cases ho : outputEol cfg a = Eol.crlf
+  · -- not auto, not autoCrlf; autoInput has output lf
+    have hna : a.isAuto = false := by
+      cases a <;> simp_all [Spec.C43.noStreamFilter, CrlfAction.isAuto, outputEol]
+    simp only [ho, beq_self_eq_true, if_true, Spec.C43.willConvertLfToCrlf, hna, Bool.false_eq_true, if_false]
+    by_cases hz : (gatherStats src).lonelf = 0
+    · simp [hz, lfToCrlf_of_stats src hz]
+    · simp [hz]
+  · have : (outputEol cfg a == Eol.crlf) = false := by simpa using ho
+    simp [this, Spec.C43.willConvertLfToCrlf, ho]
+
+
+
+/-- the probe with `b"\r\n"` in `Pipeline::convert_to_git` answers "is the digest not Binary" -/
+theorem wouldConvert_eq {t : StatsTable} (hok : tableOk t = true) (d : Digest) (c : Config) :
+    wouldConvertEol t d c = (d != .binary) := by
+  unfold wouldConvertEol
+  have hs : Stats.fromBytesWith t [13, 10] = { crlf := 1 } := by
+    rw [Stats.fromBytesWith, statsGo_cr_lf hok]; rfl
+  cases d <;>
+    simp [eolToGitWith, hs, Stats.isBinary, Digest.isAutoText, convertCrlfToLf, eolToGitTail]
+
+/-- the content a to-git pipeline outcome stands for -/
+def toGitResult (src : Bytes) : Except RtMsg (Outcome × Option RtMsg) → Except Spec.C43.EolMsg Spec.C43.ToGit
+  | .ok (o, w) => .ok { out := o.bytes src, warning := w.map RtMsg.toGit }
+  | .error m => .error m.toGit
+
+def CrlfRoundTripCheck.toGit (k : CrlfRoundTripCheck) : Spec.C43.SafeCrlf := safeOf k.toEol
+
+/-- `Pipeline::convert_to_git` = `eol::convert_to_git` followed by `ident::undo` (if `ident` is set) -/
+theorem pipelineToGit_decompose {t : StatsTable} (hok : tableOk t = true) (src : Bytes) (a : Attrs)
+    (index : Option Bytes) (k : CrlfRoundTripCheck) (c : Config) :
+    toGitResult src (pipelineToGitWith t src a index k c) =
+      (match exceptToGit src (eolToGitWith t src (atPath a c).1 index k.toEol c) with
+       | .error m => .error m
+       | .ok r => .ok { r with out := if (atPath a c).2 then (identUndo r.out).getD r.out else r.out }) := by
+  unfold pipelineToGitWith
+  simp only [wouldConvert_eq hok]
+  generalize atPath a c = dp
+  obtain ⟨d, ai⟩ := dp
+  by_cases hu : (!(ai || d != Digest.binary)) = true
+  · simp only [hu, if_true]
+    simp only [Bool.not_eq_true', Bool.or_eq_false_iff, bne_eq_false_iff_eq] at hu
+    obtain ⟨h1, h2⟩ := hu
+    subst h1 h2
+    simp [eolToGitWith, toGitResult, exceptToGit, EolToGit.toGit, Outcome.bytes]
+  · simp only [hu, Bool.false_eq_true, if_false]
+    cases he : eolToGitWith t src d index k.toEol c with
+    | error m => simp [toGitResult, exceptToGit]
+    | ok r =>
+      simp only [toGitResult, exceptToGit, EolToGit.toGit, Outcome.bytes]
+
+/-- `Pipeline::convert_to_worktree` = `ident::apply` (if `ident` is set) followed by
+`eol::convert_to_worktree` -/
+theorem pipelineToWorktree_decompose (t : StatsTable) (hash : Bytes → Bytes) (src : Bytes) (a : Attrs)
+    (c : Config) :
+    (pipelineToWorktreeWith t hash src a c).bytes src =
+      (let s1 := if (atPath a c).2 then (identApply hash src).getD src else src
+       (eolToWorktreeWith t s1 (atPath a c).1 c).getD s1) := by
+  unfold pipelineToWorktreeWith
+  generalize atPath a c = dp
+  obtain ⟨d, ai⟩ := dp
+  cases ai
+  · simp only [Bool.false_eq_true, if_false, Option.getD_none]
+    cases eolToWorktreeWith t src d c <;> simp [Outcome.bytes]
+  · simp only [if_true]
+    cases identApply hash src with
+    | none =>
+      simp only [Option.getD_none]
+      cases eolToWorktreeWith t src d c <;> simp [Outcome.bytes]
+    | some b =>
+      simp only [Option.getD_some]
+      cases eolToWorktreeWith t b d c <;> simp [Outcome.bytes]
+
 
 end GixModel.C43
